@@ -24,7 +24,14 @@ P = {'id': 'C12',
               'cesa_lcp_at_is_kasai',
               'cesa_too_long_refused',
               'stored_width_exact_iff',
-              'cesa_narrow_width_refuted'],
+              'cesa_narrow_width_refuted',
+              'sort_by_cmp_is_sa',
+              'build_by_plain_is_build',
+              'build_by_is_sa',
+              'keyed_compare_is_suffix_compare',
+              'keyed_sort_is_sa',
+              'keyed_sort_last_nonzero',
+              'keyed_compare_refuted'],
  'trusted': ['modelled (M+S): src/algorithms/suffix_array.rs SuffixArray::{compare_suffix_pattern, lower_bound, upper_bound, search_range, search}, '
              'SuffixArrayBuilder::{select_algorithm, build, build_sequential, build_parallel, dc3_construct, divsufsort_construct, '
              'larsson_sadakane_construct, fallback_sort}, LcpArray::compute_lcp_kasai, EnhancedSuffixArray::compute_bwt; '
